@@ -82,7 +82,7 @@ Definition frame_rel (g : list (option gobj) * option PyPrims.exn) (m : frame_re
   fst g = map (fun e => Some (obj_of_event e)) (snd (fst m)) /\
   match snd g, snd m with
   | None, None => True
-  | Some e, Some me => err_ok e me
+  | Some e, Some me => err_ok_gen e me
   | _, _ => False
   end.
 
@@ -297,7 +297,7 @@ Qed.
 Lemma parse_triples_stream_is fms opts a (d : GDec) :
   GenericTriplesAdapter___init__ SN opts = Val a -> Decoder___init__ SN Adapter_options a = Val d ->
   parse_triples_stream SN fms opts =
-  (match first_err (gd_frames fms d) with Some e => Exn e | None => Val tt end, fms, map fst (gd_frames fms d)).
+  (match first_err (gd_frames fms d) with Some e => Exn (gen_exn e) | None => Val tt end, fms, map fst (gd_frames fms d)).
 Proof.
   intros Ha Hd. unfold parse_triples_stream. cbv zeta. rewrite Ha, Hd.
   match goal with |- context [?f fms (fms, @nil (list (option gobj)), d)] => set (loop := f) end.
@@ -312,7 +312,7 @@ Lemma parse_quads_stream_is fms opts a (d : GDec) :
   (if StreamTypes_physical_type (ParserOptions_stream_types opts) =? 2 then GenericQuadsAdapter___init__ SN opts else GenericGraphsAdapter___init__ SN opts) = Val a ->
   Decoder___init__ SN Adapter_options a = Val d ->
   parse_quads_stream SN fms opts =
-  (match first_err (gd_frames fms d) with Some e => Exn e | None => Val tt end, fms, map fst (gd_frames fms d)).
+  (match first_err (gd_frames fms d) with Some e => Exn (gen_exn e) | None => Val tt end, fms, map fst (gd_frames fms d)).
 Proof.
   intros Ha Hd. unfold parse_quads_stream. cbv zeta.
   destruct (StreamTypes_physical_type (ParserOptions_stream_types opts) =? 2); cbv beta iota; rewrite Ha, Hd;
